@@ -1,6 +1,7 @@
 package rules
 
 import (
+	"go/types"
 	"fmt"
 	"go/token"
 	"sort"
@@ -156,13 +157,24 @@ func runC01(c *Ctx) {
 	r.Rule("C01.1", "ext-table: extension filters compare with exactly {.json,.yaml}", 5)
 	r.Rule("C01.2", "scan-filter: only non-directory entries with a Spec extension are loaded; sub-directories are skipped", 4)
 	r.Rule("C01.3", "priority-flow: the directory index reaches Spec.priority unchanged", 4)
-	r.Rule("C01.4", "conflict-by-order-type: '>' replaces and forgets the conflict, '=' records a conflict and keeps, '<' changes nothing; conflicts are removed after the scan", 6)
+	r.Rule("C01.4", "conflict-by-order-type: '>' replaces and forgets the conflict, '=' records a conflict and keeps, '<' changes nothing; conflicts are removed after the scan", 5)
 	r.Rule("C01.5", "index-only-from-valid: index insertions happen only for successfully loaded Specs", 2)
 	r.Rule("C01.6", "rebuilt-wholesale: the index fields are assigned the maps built by this scan", 3)
 	r.Rule("C01.7", "listers: each query method reads the index it is named after, after refreshIfRequired", 6)
 
 	// ---- C01.1
-	filterSites := map[string]bool{"scanSpecDirs$1": false, "(*watch).watch": false, "(*Cache).WriteSpec": false, "(*Cache).RemoveSpec": false, "newSpec": false}
+	// the scan's filter site is the function handed to filepath.Walk, whatever it is called
+	walkCB := "scanSpecDirs$1"
+	if scan := c.U.Func("cdi", "scanSpecDirs"); scan != nil {
+		for _, call := range ir.Calls(scan) {
+			if f := call.Common().StaticCallee(); f != nil && (f.String() == "path/filepath.Walk" || f.String() == "path/filepath.WalkDir") && len(call.Common().Args) == 2 {
+				for _, cb := range c.U.FuncValues(call.Common().Args[1]) {
+					walkCB = c.U.RelName(cb)
+				}
+			}
+		}
+	}
+	filterSites := map[string]bool{walkCB: false, "(*watch).watch": false, "(*Cache).WriteSpec": false, "(*Cache).RemoveSpec": false, "newSpec": false}
 	nExt := 0
 	for _, fn := range c.U.RepoFuncs("cdi") {
 		for v, consts := range c.extCompareSets(fn) {
@@ -377,6 +389,25 @@ func ordOf(g, newP, oldP string) (map[string]bool, bool) {
 	return nil, false
 }
 
+// nonEmptyLiteral: v is a slice of a local array of constant length >= 1 (a variadic
+// argument list or a composite literal).
+func nonEmptyLiteral(v ssa.Value) bool {
+	sl, ok := v.(*ssa.Slice)
+	if !ok || sl.Low != nil || sl.High != nil {
+		return false
+	}
+	a, ok := sl.X.(*ssa.Alloc)
+	if !ok {
+		return false
+	}
+	pt, ok := a.Type().Underlying().(*types.Pointer)
+	if !ok {
+		return false
+	}
+	arr, ok := pt.Elem().Underlying().(*types.Array)
+	return ok && arr.Len() >= 1
+}
+
 // c01Conflicts: C01.4, C01.5, C01.6.
 func c01Conflicts(c *Ctx, s *scanShape) {
 	r := c.R
@@ -385,6 +416,7 @@ func c01Conflicts(c *Ctx, s *scanShape) {
 
 	// ---- insertions in the scan callback
 	var devStore *ssa.MapUpdate
+	var devStores []*ssa.MapUpdate
 	var specStores []*ssa.MapUpdate
 	ir.Instrs(cb, func(in ssa.Instruction) {
 		mu, ok := in.(*ssa.MapUpdate)
@@ -393,10 +425,15 @@ func c01Conflicts(c *Ctx, s *scanShape) {
 		}
 		switch {
 		case isMap(mu.Map, s.devicesMap):
-			if devStore != nil {
-				r.Violation("C01.4", "device-store:count", c.pos(mu), "more than one insertion into the device index in the scan callback")
+			// (several insertions are fine when they store the same thing under the same key,
+			// e.g. one on the 'replace' branch and one for a name not yet indexed)
+			if devStore != nil && (c.valueDesc(mu.Key) != c.valueDesc(devStore.Key) || c.valueDesc(mu.Value) != c.valueDesc(devStore.Value)) {
+				r.Violation("C01.4", "device-store:count", c.pos(mu), "the scan callback inserts different things into the device index")
 			}
-			devStore = mu
+			devStores = append(devStores, mu)
+			if devStore == nil {
+				devStore = mu
+			}
 		case isMap(mu.Map, s.specsMap):
 			specStores = append(specStores, mu)
 		}
@@ -406,7 +443,7 @@ func c01Conflicts(c *Ctx, s *scanShape) {
 		return
 	}
 	// C01.5
-	for _, mu := range append([]*ssa.MapUpdate{devStore}, specStores...) {
+	for _, mu := range append(append([]*ssa.MapUpdate{}, devStores...), specStores...) {
 		gs := c.guardsOf(cb, mu)
 		okErr := false
 		for _, g := range gs {
@@ -414,9 +451,11 @@ func c01Conflicts(c *Ctx, s *scanShape) {
 				okErr = true
 			}
 		}
-		what := "device"
-		if mu != devStore {
-			what = "Spec"
+		what := "Spec"
+		for _, ds := range devStores {
+			if mu == ds {
+				what = "device"
+			}
 		}
 		r.Check("C01.5", "insert-after-load-ok:"+what, okErr, c.pos(mu), fmt.Sprintf("%s index insertion happens only when the file loaded without error (conditions %v)", what, gs))
 	}
@@ -428,7 +467,8 @@ func c01Conflicts(c *Ctx, s *scanShape) {
 		valOK := false
 		if ap, ok := mu.Value.(*ssa.Call); ok && ir.BuiltinName(ap) == "append" {
 			elems := c.U.ContainerElems(ap.Call.Args[1])
-			if len(elems) == 1 && elems[0] == ssa.Value(cb.Params[2]) && c.valueDescContains(ap.Call.Args[0], "make:map(specs)[*]") {
+			isSpec := len(elems) == 1 && (elems[0] == ssa.Value(cb.Params[len(cb.Params)-2]) || c.valueDesc(elems[0]) == "param:spec")
+			if lk, isLk := ap.Call.Args[0].(*ssa.Lookup); isSpec && isLk && isMap(lk.X, s.specsMap) && c.valueDesc(lk.Index) == c.valueDesc(mu.Key) {
 				valOK = true
 			}
 		}
@@ -451,60 +491,67 @@ func c01Conflicts(c *Ctx, s *scanShape) {
 		r.Check("C01.5", "all-devices", devLoop != nil && devLoop.Complete && devLoop.BodyBlocks()[devStore.Block()], c.pos(devStore), "the insertion is inside a complete loop over the Spec's devices")
 	}
 
-	// ---- the conflict closure
-	var rcCall ssa.CallInstruction
-	for _, call := range ir.Calls(cb) {
-		f := c.U.StaticCallee(call)
-		if f == nil || f.Parent() != s.refresh || f == cb {
-			continue
-		}
-		if len(call.Common().Args) == 3 && call.Common().Signature().Results().Len() == 1 {
-			rcCall, s.rc = call, f
+	// ---- conflict resolution, evaluated on the scan callback itself. The conflict closure and
+	// the error collector of refresh (closures, methods, or written out) are expanded into the
+	// callback before analysis, so the rule reads one iteration of the device loop: from the
+	// edge on which the name is already indexed to the next iteration (or a return), every
+	// path is classified by the order types of (new priority, old priority) its comparisons admit,
+	// and its effects must be exactly those the order type calls for.
+	var presentIf *ssa.If
+	var oldDev ssa.Value
+	presentSucc := 0
+	for _, iff := range ir.Ifs(cb) {
+		if ex, ok := iff.Cond.(*ssa.Extract); ok && ex.Index == 1 {
+			if lk, ok := ex.Tuple.(*ssa.Lookup); ok && isMap(lk.X, s.devicesMap) {
+				presentIf, presentSucc = iff, 0
+			}
+		} else if tv, nilSucc, ok := ir.NilTest(iff); ok {
+			if lk, ok := tv.(*ssa.Lookup); ok && isMap(lk.X, s.devicesMap) {
+				presentIf, presentSucc = iff, 1-nilSucc
+			}
 		}
 	}
-	if s.rc == nil {
-		r.Undecided("C01.4", "anchor:conflict-closure", c.U.Pos(cb.Pos()), "the scan callback does not call a conflict-resolution closure (name, new, old) -> bool")
+	if presentIf == nil {
+		r.Undecided("C01.4", "anchor:present-test", c.U.Pos(cb.Pos()), "the scan callback does not test whether the device name is already indexed")
 		return
 	}
-	rc := s.rc
-	// which parameter is the new device, which the old one
-	newIdx, oldIdx := -1, -1
-	for i, a := range rcCall.Common().Args {
-		d := c.valueDesc(a)
-		if d == "param:spec.devices[*]" {
-			newIdx = i
+	// the indexed (old) device: the value of the lookup the test is about
+	if ex, ok := presentIf.Cond.(*ssa.Extract); ok {
+		if lk, ok := ex.Tuple.(*ssa.Lookup); ok && lk.Referrers() != nil {
+			for _, ref := range *lk.Referrers() {
+				if e0, ok := ref.(*ssa.Extract); ok && e0.Index == 0 {
+					oldDev = e0
+				}
+			}
 		}
-		if strings.HasPrefix(d, "make:map(devices)[*]") {
-			oldIdx = i
+	} else if tv, _, ok := ir.NilTest(presentIf); ok {
+		oldDev = tv
+	}
+	newD := c.valueDesc(devStore.Value) // param:spec.devices[*]
+	oldD := "make:map(devices)[*]"
+	if oldDev != nil {
+		oldD = c.valueDesc(oldDev)
+	}
+	newP, oldP := newD+".spec.priority", oldD+".spec.priority"
+	newPath, oldPath := newD+".spec.path", oldD+".spec.path"
+	keyD := c.valueDesc(devStore.Key)
+	var devLoopHdr *ssa.BasicBlock
+	for _, l := range ir.Loops(cb) {
+		if c.valueDesc(l.Over) == "param:spec.devices" {
+			devLoopHdr = l.Header
 		}
 	}
-	if newIdx < 0 || oldIdx < 0 {
-		r.Undecided("C01.4", "anchor:conflict-args", c.pos(rcCall), "conflict closure is not called with (the Spec's device, the indexed device)")
-		return
-	}
-	gsCall := c.guardsOf(cb, rcCall.(ssa.Instruction))
-	present := false
-	for _, g := range gsCall {
-		if strings.HasPrefix(g, "present(make:map(devices)[") || strings.HasPrefix(g, "nonnil(make:map(devices)[") {
-			present = true
-		}
-	}
-	r.Check("C01.4", "conflict-only-when-present", present, c.pos(rcCall), fmt.Sprintf("conflict resolution runs exactly when the name is already indexed (conditions %v)", gsCall))
-	newP := "param:" + rc.Params[newIdx].Name() + ".spec.priority"
-	oldP := "param:" + rc.Params[oldIdx].Name() + ".spec.priority"
-	nameParam := rc.Params[3-newIdx-oldIdx]
-
-	loops := ir.Loops(rc)
+	loops := ir.Loops(cb)
 	type pathInfo struct {
-		orders                                map[string]bool
-		retTrue, retFalse                     bool
-		delConflict, setConflict, collectBoth bool
-		recorded                              map[string]bool
-		otherEffects                          []string
+		orders                                        map[string]bool
+		stored, delConflict, setConflict, collectBoth bool
+		recorded                                      map[string]bool
+		otherEffects                                  []string
 	}
 	var infos []pathInfo
-	complete := ir.EnumPaths(rc, nil, false, func(p ir.BlockPath, end ssa.Instruction) {
-		pi := pathInfo{orders: map[string]bool{">": true, "=": true, "<": true}}
+	present := ir.Edge{From: presentIf.Block(), Succ: presentSucc}
+	complete := ir.EnumPathsTo(cb, &present, func(b *ssa.BasicBlock) bool { return b == devLoopHdr }, func(p ir.BlockPath) {
+		pi := pathInfo{orders: map[string]bool{">": true, "=": true, "<": true}, recorded: map[string]bool{}}
 		for i := 0; i+1 < len(p); i++ {
 			b := p[i]
 			iff, ok := b.Instrs[len(b.Instrs)-1].(*ssa.If)
@@ -515,8 +562,7 @@ func c01Conflicts(c *Ctx, s *scanShape) {
 			if p[i+1] == b.Succs[1] {
 				succ = 1
 			}
-			g := c.condDesc(iff, succ, loops)
-			if o, ok := ordOf(g, newP, oldP); ok {
+			if o, ok := ordOf(c.condDesc(iff, succ, loops), newP, oldP); ok {
 				for k := range pi.orders {
 					if !o[k] {
 						delete(pi.orders, k)
@@ -527,52 +573,54 @@ func c01Conflicts(c *Ctx, s *scanShape) {
 		if len(pi.orders) == 0 {
 			return // contradictory comparisons: infeasible
 		}
-		ret := end.(*ssa.Return)
-		if b, ok := ir.ConstBool(ir.ResolveOnPath(ir.ReturnResult(ret, 0), p)); ok {
-			pi.retTrue, pi.retFalse = b, !b
+		// a loop over a literal list (the paths handed to the expanded collector) runs at least once
+		for _, l := range loops {
+			if !nonEmptyLiteral(l.Over) {
+				continue
+			}
+			through, body := false, false
+			for i := 0; i+1 < len(p); i++ {
+				if p[i] == l.Header {
+					through = true
+					if p[i+1] == l.Body.To() {
+						body = true
+					}
+				}
+			}
+			if through && !body {
+				return
+			}
 		}
-		for _, b := range p {
+		for _, b := range p[1:] {
+			if b == devLoopHdr {
+				continue
+			}
 			for _, in := range b.Instrs {
 				switch x := in.(type) {
 				case *ssa.MapUpdate:
-					if isMap(x.Map, s.conflicts) && x.Key == ssa.Value(nameParam) {
+					switch {
+					case x == devStore || (isMap(x.Map, s.devicesMap) && c.valueDesc(x.Key) == keyD):
+						pi.stored = true
+					case isMap(x.Map, s.conflicts) && c.valueDesc(x.Key) == keyD:
 						pi.setConflict = true
-					} else if kd, ok := directErrorRecord(c, s, x, false); ok {
-						// the conflict recorded in place (no collector closure): both paths must be named
-						if pi.recorded == nil {
-							pi.recorded = map[string]bool{}
+					default:
+						if kd, ok := directErrorRecord(c, s, x, false); ok {
+							for _, k := range strings.Split(kd, "|") {
+								pi.recorded[k] = true
+							}
+							if pi.recorded[newPath] && pi.recorded[oldPath] {
+								pi.collectBoth = true
+							}
+						} else {
+							pi.otherEffects = append(pi.otherEffects, "map update at "+c.pos(x)+" (map "+c.valueDesc(x.Map)+", key "+c.valueDesc(x.Key)+")")
 						}
-						pi.recorded[kd] = true
-						if pi.recorded["param:"+rc.Params[newIdx].Name()+".spec.path"] && pi.recorded["param:"+rc.Params[oldIdx].Name()+".spec.path"] {
-							pi.collectBoth = true
-						}
-					} else {
-						pi.otherEffects = append(pi.otherEffects, "map update at "+c.pos(x))
 					}
 				case *ssa.Call:
-					switch {
-					case ir.BuiltinName(x) == "delete":
-						if isMap(x.Call.Args[0], s.conflicts) && x.Call.Args[1] == ssa.Value(nameParam) {
+					if ir.BuiltinName(x) == "delete" {
+						if isMap(x.Call.Args[0], s.conflicts) && c.valueDesc(x.Call.Args[1]) == keyD {
 							pi.delConflict = true
 						} else {
 							pi.otherEffects = append(pi.otherEffects, "delete at "+c.pos(x))
-						}
-					default:
-						callee := c.U.StaticCallee(x)
-						if callee != nil && callee.Parent() == s.refresh {
-							// the error collector: must name both Specs' paths
-							var ds []string
-							for _, a := range x.Call.Args {
-								for _, ev := range append(c.U.ContainerElems(a), a) {
-									ds = append(ds, c.valueDesc(ev))
-								}
-							}
-							j := strings.Join(ds, " ")
-							if strings.Contains(j, "param:"+rc.Params[newIdx].Name()+".spec.path") && strings.Contains(j, "param:"+rc.Params[oldIdx].Name()+".spec.path") {
-								pi.collectBoth = true
-							} else {
-								pi.otherEffects = append(pi.otherEffects, "error collected without both paths at "+c.pos(x))
-							}
 						}
 					}
 				case *ssa.Store:
@@ -587,7 +635,7 @@ func c01Conflicts(c *Ctx, s *scanShape) {
 		infos = append(infos, pi)
 	})
 	if !complete || len(infos) == 0 {
-		r.Undecided("C01.4", "conflict-paths", c.U.Pos(rc.Pos()), "paths of the conflict closure could not be enumerated")
+		r.Undecided("C01.4", "conflict-paths", c.pos(presentIf), "the paths of one iteration from 'name already indexed' to the next iteration could not be enumerated")
 		return
 	}
 	covered := map[string]bool{}
@@ -603,25 +651,25 @@ func c01Conflicts(c *Ctx, s *scanShape) {
 			var problem string
 			switch o {
 			case ">":
-				if !pi.retFalse {
-					problem = "does not tell the caller to replace the indexed device"
+				if !pi.stored {
+					problem = "does not replace the indexed device by the one of the higher-priority Spec"
 				} else if s.conflicts != nil && !pi.delConflict {
 					problem = "replaces the device but does not forget a conflict recorded among lower-priority Specs: the device would be removed after the scan"
 				} else if pi.setConflict || pi.collectBoth {
 					problem = "records a conflict although the new Spec simply has higher priority"
 				}
 			case "=":
-				if !pi.retTrue {
+				if pi.stored {
 					problem = "replaces the indexed device although both Specs have the same priority"
 				} else if !pi.setConflict {
 					problem = "does not record the conflict: one of the two equal-priority definitions would silently win"
 				} else if !pi.collectBoth {
-					problem = "does not report the conflict for both Spec files"
+					problem = fmt.Sprintf("does not report the conflict for both Spec files (recorded under %v, wanted %s and %s)", keys(pi.recorded), newPath, oldPath)
 				} else if pi.delConflict {
 					problem = "forgets the conflict it should record"
 				}
 			case "<":
-				if !pi.retTrue {
+				if pi.stored {
 					problem = "lets a lower-priority Spec replace the indexed device"
 				} else if pi.setConflict || pi.delConflict || pi.collectBoth {
 					problem = "a definition in a lower-priority directory changes the conflict state"
@@ -632,44 +680,32 @@ func c01Conflicts(c *Ctx, s *scanShape) {
 			}
 			if problem != "" {
 				bad++
-				r.Violation("C01.4", "order:"+o, c.U.Pos(rc.Pos()), fmt.Sprintf("a path of the conflict closure taken when new priority %s old priority %s", o, problem))
+				r.Violation("C01.4", "order:"+o, c.pos(presentIf), fmt.Sprintf("a path of the iteration taken when new priority %s old priority %s", o, problem))
 			}
 		}
 	}
 	for _, o := range []string{">", "=", "<"} {
 		if !covered[o] {
 			bad++
-			r.Violation("C01.4", "order:"+o, c.U.Pos(rc.Pos()), "no path of the conflict closure handles new priority "+o+" old priority")
+			r.Violation("C01.4", "order:"+o, c.pos(presentIf), "no path of the iteration handles new priority "+o+" old priority")
 		}
 	}
 	if bad == 0 {
 		for _, o := range []string{">", "=", "<"} {
-			r.OK("C01.4", "order:"+o, c.U.Pos(rc.Pos()), fmt.Sprintf("all %d paths of the conflict closure behave as specified for new priority %s old priority", len(infos), o))
+			r.OK("C01.4", "order:"+o, c.pos(presentIf), fmt.Sprintf("all %d paths from 'name already indexed' to the next iteration behave as specified for new priority %s old priority", len(infos), o))
 		}
 	}
 	// the priorities compared are the Specs' priorities of (new, old)
 	cmpSeen := false
-	for _, iff := range ir.Ifs(rc) {
+	for _, iff := range ir.Ifs(cb) {
 		if _, ok := ordOf(c.condDesc(iff, 0, loops), newP, oldP); ok {
 			cmpSeen = true
 		}
 	}
-	r.Check("C01.4", "compares-priorities", cmpSeen, c.U.Pos(rc.Pos()), "the closure compares "+newP+" with "+oldP)
-
-	// ---- how the callback uses the verdict
-	var verdictIf *ssa.If
-	if v := rcCall.Value(); v != nil && v.Referrers() != nil {
-		for _, ref := range *v.Referrers() {
-			if iff, ok := ref.(*ssa.If); ok {
-				verdictIf = iff
-			}
-		}
-	}
-	if verdictIf == nil {
-		r.Violation("C01.4", "verdict-used", c.pos(rcCall), "the verdict of the conflict closure is not branched on")
-	} else {
-		keep := ir.Edge{From: verdictIf.Block(), Succ: 0}    // closure returned true: keep old
-		replace := ir.Edge{From: verdictIf.Block(), Succ: 1} // false: replace
+	r.Check("C01.4", "compares-priorities", cmpSeen, c.pos(presentIf), "the priorities compared are "+newP+" and "+oldP)
+	// absent -> store
+	{
+		absent := ir.Edge{From: presentIf.Block(), Succ: 1 - presentSucc}
 		hdr := func(in ssa.Instruction) bool {
 			for _, l := range ir.Loops(cb) {
 				if in.Block() == l.Header {
@@ -679,28 +715,15 @@ func c01Conflicts(c *Ctx, s *scanShape) {
 			_, isRet := in.(*ssa.Return)
 			return isRet
 		}
-		keptStores := ir.CanReach(cb, ir.PathQuery{FromEdge: &keep, To: devStore, Stop: hdr})
-		replStores := !ir.CanReach(cb, ir.PathQuery{FromEdge: &replace, ToAny: hdr, Stop: func(in ssa.Instruction) bool { return in == ssa.Instruction(devStore) }})
-		r.Check("C01.4", "verdict-keep", !keptStores, c.pos(verdictIf), "when the closure says 'keep' the device index is not written in this iteration")
-		r.Check("C01.4", "verdict-replace", replStores, c.pos(verdictIf), "when the closure says 'replace' the device is stored")
-	}
-	// absent -> store
-	for _, iff := range ir.Ifs(cb) {
-		d0 := c.condDesc(iff, 0, ir.Loops(cb))
-		if strings.HasPrefix(d0, "present(make:map(devices)[") {
-			absent := ir.Edge{From: iff.Block(), Succ: 1}
-			hdr := func(in ssa.Instruction) bool {
-				for _, l := range ir.Loops(cb) {
-					if in.Block() == l.Header {
-						return true
-					}
+		ok := !ir.CanReach(cb, ir.PathQuery{FromEdge: &absent, ToAny: hdr, Stop: func(in ssa.Instruction) bool {
+			for _, ds := range devStores {
+				if in == ssa.Instruction(ds) {
+					return true
 				}
-				_, isRet := in.(*ssa.Return)
-				return isRet
 			}
-			ok := !ir.CanReach(cb, ir.PathQuery{FromEdge: &absent, ToAny: hdr, Stop: func(in ssa.Instruction) bool { return in == ssa.Instruction(devStore) }})
-			r.Check("C01.4", "absent-stores", ok, c.pos(iff), "a name not yet indexed is always stored")
-		}
+			return false
+		}})
+		r.Check("C01.4", "absent-stores", ok, c.pos(presentIf), "a name not yet indexed is always stored")
 	}
 
 	// ---- after the scan: conflicts removed
@@ -719,7 +742,7 @@ func c01Conflicts(c *Ctx, s *scanShape) {
 		if del != nil {
 			gs = c.guardsOf(s.refresh, del)
 		}
-		onlyLoop := len(gs) == 1 && strings.HasPrefix(gs[0], "loop(make:map(")
+		onlyLoop := len(gs) == 1 && strings.HasPrefix(gs[0], "loop(")
 		// the published store comes after the deletion loop
 		var pub *ssa.Store
 		ir.Instrs(s.refresh, func(in ssa.Instruction) {
